@@ -29,7 +29,8 @@ RULE = ('one case = one request (single, batch or notification) sent by the real
         'context per attempt, the caller-supplied context on every attempt, and the exception reaching the caller being '
         'the last attempt\'s. Distinct = distinct (configuration, consumed outcome sequence).')
 ASSUMPTIONS = [
-    'probe tracers do not raise',
+    'probe tracers do not raise, except in the raising-tracer cases: there the LAST tracer raises in a completion handler and only '
+    '"one begin, exactly one completion per tracer" is judged',
     'with the default (library-created) trace context only "begin and completion of one attempt share the context object" is judged',
     'attempts are delimited by transport invocations: every outcome in the script reaches or passes the transport',
 ]
@@ -41,12 +42,12 @@ ANCHORS = [
     ('pjrpc/client/client.py', 'AbstractClient._send'), ('pjrpc/client/client.py', 'AbstractAsyncClient._send'),
 ]
 OUTCOMES = ['ok', 'listed', 'unlisted', 'exc-listed', 'exc-unlisted', 'undecodable', 'invalid-doc', 'identity', 'base-exc',
-            'cancelled-raised', 'cancel-task']
+            'cancelled-raised', 'cancel-task', 'exc-stopiteration']
 FLOORS = {'*': {**{f'last:{o}': 5 for o in OUTCOMES}, 'real-cancellation': 5, 'multi-attempt-3-tracers': 20,
                 'client:sync': 200, 'client:async': 200, 'tracers:0': 20, 'tracers:1': 50, 'tracers:2': 50, 'tracers:3': 50,
                 'ctx:supplied': 100, 'ctx:default': 100, 'kind:single': 100, 'kind:batch': 50, 'kind:notification': 30,
                 'attempts>=2': 100, 'concurrent-requests': 100, 'tracer-style:class': 100, 'tracer-style:instance': 100,
-                'tracer-style:mixed': 100, 'notification-answered-with-a-body:strict': 20, 'notification-answered-with-a-body:non-strict': 20, 'called-while-handling-another-exception': 100}}
+                'tracer-style:mixed': 100, 'raising-tracer': 50, 'notification-answered-with-a-body:strict': 20, 'notification-answered-with-a-body:non-strict': 20, 'called-while-handling-another-exception': 100}}
 
 
 class Abort(BaseException):
@@ -138,9 +139,11 @@ class Script:
 
     def respond(self, o, k, text, is_notification):
         self.log.append(('transport', k))
-        if o in ('exc-listed', 'exc-unlisted', 'base-exc', 'cancelled-raised'):
+        if o in ('exc-listed', 'exc-unlisted', 'base-exc', 'cancelled-raised', 'exc-stopiteration'):
+            # (StopIteration: what a scripted transport that ran out of canned replies raises; sync clients only - inside a
+            # coroutine the interpreter itself replaces it)
             exc = {'exc-listed': ConnectionError, 'exc-unlisted': KeyError, 'base-exc': Abort,
-                   'cancelled-raised': asyncio.CancelledError}[o](f'attempt{k}')
+                   'cancelled-raised': asyncio.CancelledError, 'exc-stopiteration': StopIteration}[o](f'attempt{k}')
             self.raised[k] = exc
             raise exc
         if is_notification:
@@ -239,14 +242,14 @@ def run_case(ctx, n_tracers, attempts, script, kind, supplied_ctx, is_async, ins
         exc = {'exc-listed': ConnectionError(), 'exc-unlisted': KeyError(), 'undecodable': ValueError(),
                'invalid-doc': DeserializationError(), 'identity': IdentityError(), 'base-exc': Abort(),
                'cancelled-raised': asyncio.CancelledError(), 'cancel-task': asyncio.CancelledError(),
-               'unexpected-body': pjrpc.exceptions.BaseError()}[o]
+               'unexpected-body': pjrpc.exceptions.BaseError(), 'exc-stopiteration': StopIteration()}[o]
         return {'kind': 'exception', 'exc': exc}
 
     is_notif = kind == 'notification'
     eff_script = list(script)
     if is_notif:
         # bodies are not read for notifications: response-shaped outcomes all mean "transport returned"
-        eff_script = [o if o in ('exc-listed', 'exc-unlisted', 'base-exc', 'cancelled-raised', 'cancel-task') else
+        eff_script = [o if o in ('exc-listed', 'exc-unlisted', 'base-exc', 'cancelled-raised', 'cancel-task', 'exc-stopiteration') else
                       ('unexpected-body' if (strict and notif_body) else 'ok') for o in script]
     delays = [0.0] * attempts if attempts is not None else None
     outcomes = [kind_of(o) for o in eff_script]
@@ -468,12 +471,80 @@ def run_concurrent(ctx, n_tracers, outcomes, release_order, supplied):
     ctx.ok(fam, cls, sample=wit)
 
 
+class RaisingRec(Rec):
+    """records like Rec, then fails in one of its completion handlers (a tracer that reads response.result of an error
+    response, a metrics client that is down)"""
+
+    def __init__(self, idx, log, where):
+        super().__init__(idx, log)
+        self.where = where
+
+    def on_request_end(self, trace_context, request, response):
+        super().on_request_end(trace_context, request, response)
+        if self.where == 'end':
+            raise RuntimeError('tracer failed in on_request_end')
+
+    def on_error(self, trace_context, request, error):
+        super().on_error(trace_context, request, error)
+        if self.where == 'error':
+            raise RuntimeError('tracer failed in on_error')
+
+
+def run_raising_tracer(ctx, n_tracers, where, outcome, kind, is_async):
+    """the LAST configured tracer raises in a completion handler. Whatever then reaches the caller (not judged), no tracer
+    may have been given a second completion for its one begin."""
+    ck = 'async' if is_async else 'sync'
+    log = []
+    tracers = [Rec(i, log) for i in range(n_tracers - 1)] + [RaisingRec(n_tracers - 1, log, where)]
+    sc = Script([outcome], log)
+
+    def transport(text, is_notification, kwargs):
+        o, k = sc.outcome()
+        return sc.respond(o, k, text, is_notification)
+
+    cls_ = clientside.AsyncClient if is_async else clientside.SyncClient
+    client = cls_(transport, tracers=tracers)
+    if kind == 'batch':
+        req = v20.BatchRequest(v20.Request('a', [1], id=1), v20.Request('b', [2], id=2))
+        st, out = clientside.outcome_of(lambda: client.batch.send(req), is_async)
+    else:
+        req = v20.Request('m', [1], id=None if kind == 'notification' else 5)
+        st, out = clientside.outcome_of(lambda: client.send(req), is_async)
+    ctx.hit('raising-tracer')
+    cls = ('raising-tracer', n_tracers, where, outcome, kind, ck)
+    fam = f'raising-tracer:{where}:{ck}'
+    wit = dict(tracers=n_tracers, last_tracer_raises_in=where, transport_outcome=outcome, kind=kind, client=ck, outcome=[st, out],
+               events=[(e[0], e[1]) if e[0] == 'transport' else (e[0], e[1], type(e[4]).__name__) for e in log])
+    for t in range(n_tracers):
+        begins = sum(1 for e in log if e[0] == t and e[1] == 'begin')
+        comps = [e[1] for e in log if e[0] == t and e[1] in ('end', 'error')]
+        if begins != 1:
+            ctx.violation('tracer-did-not-see-exactly-one-begin:with-a-raising-tracer', fam, cls, tracer=t, **wit)
+            return
+        if len(comps) > 1:
+            ctx.violation('tracer-given-two-completions-for-one-begin:' + '+'.join(comps), fam, cls, tracer=t, **wit)
+            return
+        if len(comps) == 0:
+            ctx.violation('tracer-given-no-completion:with-a-raising-tracer', fam, cls, tracer=t, **wit)
+            return
+    ctx.ok(fam, cls, sample=wit)
+
+
 def gen(ctx):
     rng = ctx.rng
     deep = ctx.thorough
     full = True
     k = 0
+    for n_tr in (1, 2, 3):
+        for where, outs in (('end', ('ok', 'unlisted')), ('error', ('exc-unlisted', 'undecodable', 'identity'))):
+            for outcome in outs:
+                for kind in ('single', 'batch', 'notification'):
+                    if kind == 'notification' and outcome in ('undecodable', 'identity', 'unlisted'):
+                        continue
+                    for is_async in (False, True):
+                        yield 'raising-tracer', dict(n_tracers=n_tr, where=where, outcome=outcome, kind=kind, is_async=is_async)
     sync_outs = [o for o in OUTCOMES if o != 'cancel-task']
+    async_outs = [o for o in OUTCOMES if o != 'exc-stopiteration']
     for n_req in (2, 3):
         for outcomes in itertools.product(('ok', 'error', 'exc'), repeat=n_req):
             for order in itertools.permutations(range(n_req)):
@@ -485,7 +556,7 @@ def gen(ctx):
         n = attempts or 0
         length = n + 1
         for is_async in (False, True):
-            outs = OUTCOMES if is_async else sync_outs
+            outs = async_outs if is_async else sync_outs
             if n <= 2 or (deep and n == 3):
                 scripts = list(itertools.product(outs, repeat=length))
             else:
@@ -506,4 +577,4 @@ def gen(ctx):
 
 
 NOTIF_BODIES = [None, '', '{"jsonrpc": "2.0", "id": null, "result": 1}', 'garbage', '{"jsonrpc": "2.0", "id": 7, "error": {"code": 1, "message": "m"}}']
-KINDS = {'case': run_case, 'concurrent': run_concurrent}
+KINDS = {'case': run_case, 'concurrent': run_concurrent, 'raising-tracer': run_raising_tracer}
